@@ -31,8 +31,6 @@ class Peer:
         self.transport = transport
 
     def start(self):
-        if self.initial_settings:
-            self.h2.local_settings.update(self.initial_settings) if False else None
         self.h2.initiate_connection()
         if self.initial_settings:
             self.h2.update_settings(self.initial_settings)
